@@ -479,7 +479,9 @@ func x01SplitScenario(rng *rand.Rand, long bool) (pats [][]string, ranks []int, 
 	if long {
 		nreads = 2
 	}
-	fastq := rng.Intn(2) == 0
+	// (long reads go as FASTA: the format sniffer of the readers refuses a FASTQ file whose first record is longer than
+	// about 3 000 bases - a reader matter, not obisplit's)
+	fastq := rng.Intn(2) == 0 && !long
 	for n := 0; n < nreads; n++ {
 		var b []byte
 		kind := "planted"
@@ -498,14 +500,16 @@ func x01SplitScenario(rng *rand.Rand, long bool) (pats [][]string, ranks []int, 
 		}
 		switch {
 		case long:
-			// more than 10 000 bases before the first planted site.  "long-early": every pattern also occurs in the first
-			// 400 bases; "long-late": the first occurrence of every pattern lies beyond position 10 000
+			// more than 10 000 bases before the first planted site.  "long-early": every pattern also occurs, on both strands, in the
+			// first bases; "long-late": the first occurrence of every pattern lies beyond position 10 000
 			kind = "long-late"
 			if n == 1 {
 				kind = "long-early"
-				for _, p := range pats {
+				for _, p := range pats { // on both strands: the matcher scans each strand of each pattern on its own
 					b = append(b, x01RandSeq(rng, 20+rng.Intn(60))...)
 					b = append(b, x01Instance(rng, p[0])...)
+					b = append(b, x01RandSeq(rng, 20+rng.Intn(60))...)
+					b = append(b, x01RevComp(x01Instance(rng, p[0]))...)
 				}
 			}
 			b = append(b, x01RandSeq(rng, 10050+rng.Intn(1500))...)
@@ -574,7 +578,7 @@ func x01RecordSplit(env *Env, bindir, dir string) {
 		long := (i < nlong && env.opt("jobseed", "") == "") || env.opt("joblong", "") == "1"
 		pats, ranks, e, reads, kinds := x01SplitScenario(rng, long)
 		indel := env.opt("indel", "") == "1"
-		useCmd := bindir != "" && rng.Intn(2) == 0
+		useCmd := bindir != "" && seed%2 == 0
 		if env.opt("joblevel", "") != "" {
 			useCmd = env.opt("joblevel", "") != "lib"
 		}
